@@ -51,51 +51,51 @@ type laFormat struct {
 }
 
 var laFormats = map[loong64.OpFormatType]laFormat{
-	loong64.OpFormatType_NULL:          {},
-	loong64.OpFormatType_2R:            {slots: [4]laSlot{{"rd", 'x', 0}, {"rj", 'x', 0}}},
-	loong64.OpFormatType_2F:            {slots: [4]laSlot{{"rd", 'f', 0}, {"rj", 'f', 0}}},
-	loong64.OpFormatType_1F_1R:         {slots: [4]laSlot{{"rd", 'f', 0}, {"rj", 'x', 0}}},
-	loong64.OpFormatType_1R_1F:         {slots: [4]laSlot{{"rd", 'x', 0}, {"rj", 'f', 0}}},
-	loong64.OpFormatType_3R:            {slots: [4]laSlot{{"rd", 'x', 0}, {"rj", 'x', 0}, {"rk", 'x', 0}}},
-	loong64.OpFormatType_3F:            {slots: [4]laSlot{{"rd", 'f', 0}, {"rj", 'f', 0}, {"rk", 'f', 0}}},
-	loong64.OpFormatType_1F_2R:         {slots: [4]laSlot{{"rd", 'f', 0}, {"rj", 'x', 0}, {"rk", 'x', 0}}},
-	loong64.OpFormatType_4F:            {slots: [4]laSlot{{"rd", 'f', 0}, {"rj", 'f', 0}, {"rk", 'f', 0}, {"ra", 'f', 0}}},
-	loong64.OpFormatType_2R_ui5:        {slots: [4]laSlot{{"rd", 'x', 0}, {"rj", 'x', 0}}, hasImm: true},
-	loong64.OpFormatType_2R_ui6:        {slots: [4]laSlot{{"rd", 'x', 0}, {"rj", 'x', 0}}, hasImm: true},
-	loong64.OpFormatType_2R_si12:       {slots: [4]laSlot{{"rd", 'x', 0}, {"rj", 'x', 0}}, hasImm: true},
-	loong64.OpFormatType_1F_1R_si12:    {slots: [4]laSlot{{"rd", 'f', 0}, {"rj", 'x', 0}}, hasImm: true},
-	loong64.OpFormatType_2R_ui12:       {slots: [4]laSlot{{"rd", 'x', 0}, {"rj", 'x', 0}}, hasImm: true},
-	loong64.OpFormatType_2R_si14:       {slots: [4]laSlot{{"rd", 'x', 0}, {"rj", 'x', 0}}, hasImm: true},
-	loong64.OpFormatType_1R_si20:       {slots: [4]laSlot{{"rd", 'x', 0}}, hasImm: true},
-	loong64.OpFormatType_0_2R:          {slots: [4]laSlot{{}, {"rj", 'x', 0}, {"rk", 'x', 0}}},
-	loong64.OpFormatType_3R_sa2:        {slots: [4]laSlot{{"rd", 'x', 0}, {"rj", 'x', 0}, {"rk", 'x', 0}}, hasImm: true},
-	loong64.OpFormatType_3R_sa3:        {slots: [4]laSlot{{"rd", 'x', 0}, {"rj", 'x', 0}, {"rk", 'x', 0}}, hasImm: true},
-	loong64.OpFormatType_code:          {hasImm: true},
-	loong64.OpFormatType_code_1R_si12:  {slots: [4]laSlot{{"rd", 'n', 32}, {"rj", 'x', 0}}, hasImm: true},
-	loong64.OpFormatType_2R_msbw_lsbw:  {slots: [4]laSlot{{"rd", 'x', 0}, {"rj", 'x', 0}, {"msb", 'n', 32}, {"lsb", 'n', 32}}},
-	loong64.OpFormatType_2R_msbd_lsbd:  {slots: [4]laSlot{{"rd", 'x', 0}, {"rj", 'x', 0}, {"msb", 'n', 64}, {"lsb", 'n', 64}}},
-	loong64.OpFormatType_fcsr_1R:       {slots: [4]laSlot{{"rd", 's', 0}, {"rj", 'x', 0}}},
-	loong64.OpFormatType_1R_fcsr:       {slots: [4]laSlot{{"rd", 'x', 0}, {"rj", 's', 0}}},
-	loong64.OpFormatType_cd_1R:         {slots: [4]laSlot{{"rd", 'c', 0}, {"rj", 'x', 0}}},
-	loong64.OpFormatType_cd_1F:         {slots: [4]laSlot{{"rd", 'c', 0}, {"rj", 'f', 0}}},
-	loong64.OpFormatType_cd_2F:         {slots: [4]laSlot{{"rd", 'c', 0}, {"rj", 'f', 0}, {"rk", 'f', 0}}},
-	loong64.OpFormatType_1R_cj:         {slots: [4]laSlot{{"rd", 'x', 0}, {"rj", 'c', 0}}},
-	loong64.OpFormatType_1F_cj:         {slots: [4]laSlot{{"rd", 'f', 0}, {"rj", 'c', 0}}},
-	loong64.OpFormatType_1R_csr:        {slots: [4]laSlot{{"rd", 'x', 0}}, hasImm: true},
-	loong64.OpFormatType_2R_csr:        {slots: [4]laSlot{{"rd", 'x', 0}, {"rj", 'x', 0}}, hasImm: true},
-	loong64.OpFormatType_2R_level:      {slots: [4]laSlot{{"rd", 'x', 0}, {"rj", 'x', 0}}, hasImm: true},
-	loong64.OpFormatType_level:         {hasImm: true},
-	loong64.OpFormatType_0_1R_seq:      {slots: [4]laSlot{{}, {"rj", 'x', 0}}, hasImm: true},
-	loong64.OpFormatType_op_2R:         {slots: [4]laSlot{{"rd", 'n', 32}, {"rj", 'x', 0}, {"rk", 'x', 0}}},
-	loong64.OpFormatType_3F_ca:         {slots: [4]laSlot{{"rd", 'f', 0}, {"rj", 'f', 0}, {"rk", 'f', 0}}, hasImm: true},
-	loong64.OpFormatType_hint_1R_si12:  {slots: [4]laSlot{{"rd", 'n', 32}, {"rj", 'x', 0}}, hasImm: true},
-	loong64.OpFormatType_hint_2R:       {slots: [4]laSlot{{"rd", 'n', 32}, {"rj", 'x', 0}, {"rk", 'x', 0}}},
-	loong64.OpFormatType_hint:          {hasImm: true},
-	loong64.OpFormatType_cj_offset:     {slots: [4]laSlot{{}, {"rj", 'c', 0}}, hasImm: true},
-	loong64.OpFormatType_rj_offset:     {slots: [4]laSlot{{}, {"rj", 'x', 0}}, hasImm: true},
-	loong64.OpFormatType_rj_rd_offset:  {slots: [4]laSlot{{"rd", 'x', 0}, {"rj", 'x', 0}}, hasImm: true},
-	loong64.OpFormatType_rd_rj_offset:  {slots: [4]laSlot{{"rd", 'x', 0}, {"rj", 'x', 0}}, hasImm: true},
-	loong64.OpFormatType_offset:        {hasImm: true},
+	loong64.OpFormatType_NULL:         {},
+	loong64.OpFormatType_2R:           {slots: [4]laSlot{{"rd", 'x', 0}, {"rj", 'x', 0}}},
+	loong64.OpFormatType_2F:           {slots: [4]laSlot{{"rd", 'f', 0}, {"rj", 'f', 0}}},
+	loong64.OpFormatType_1F_1R:        {slots: [4]laSlot{{"rd", 'f', 0}, {"rj", 'x', 0}}},
+	loong64.OpFormatType_1R_1F:        {slots: [4]laSlot{{"rd", 'x', 0}, {"rj", 'f', 0}}},
+	loong64.OpFormatType_3R:           {slots: [4]laSlot{{"rd", 'x', 0}, {"rj", 'x', 0}, {"rk", 'x', 0}}},
+	loong64.OpFormatType_3F:           {slots: [4]laSlot{{"rd", 'f', 0}, {"rj", 'f', 0}, {"rk", 'f', 0}}},
+	loong64.OpFormatType_1F_2R:        {slots: [4]laSlot{{"rd", 'f', 0}, {"rj", 'x', 0}, {"rk", 'x', 0}}},
+	loong64.OpFormatType_4F:           {slots: [4]laSlot{{"rd", 'f', 0}, {"rj", 'f', 0}, {"rk", 'f', 0}, {"ra", 'f', 0}}},
+	loong64.OpFormatType_2R_ui5:       {slots: [4]laSlot{{"rd", 'x', 0}, {"rj", 'x', 0}}, hasImm: true},
+	loong64.OpFormatType_2R_ui6:       {slots: [4]laSlot{{"rd", 'x', 0}, {"rj", 'x', 0}}, hasImm: true},
+	loong64.OpFormatType_2R_si12:      {slots: [4]laSlot{{"rd", 'x', 0}, {"rj", 'x', 0}}, hasImm: true},
+	loong64.OpFormatType_1F_1R_si12:   {slots: [4]laSlot{{"rd", 'f', 0}, {"rj", 'x', 0}}, hasImm: true},
+	loong64.OpFormatType_2R_ui12:      {slots: [4]laSlot{{"rd", 'x', 0}, {"rj", 'x', 0}}, hasImm: true},
+	loong64.OpFormatType_2R_si14:      {slots: [4]laSlot{{"rd", 'x', 0}, {"rj", 'x', 0}}, hasImm: true},
+	loong64.OpFormatType_1R_si20:      {slots: [4]laSlot{{"rd", 'x', 0}}, hasImm: true},
+	loong64.OpFormatType_0_2R:         {slots: [4]laSlot{{}, {"rj", 'x', 0}, {"rk", 'x', 0}}},
+	loong64.OpFormatType_3R_sa2:       {slots: [4]laSlot{{"rd", 'x', 0}, {"rj", 'x', 0}, {"rk", 'x', 0}}, hasImm: true},
+	loong64.OpFormatType_3R_sa3:       {slots: [4]laSlot{{"rd", 'x', 0}, {"rj", 'x', 0}, {"rk", 'x', 0}}, hasImm: true},
+	loong64.OpFormatType_code:         {hasImm: true},
+	loong64.OpFormatType_code_1R_si12: {slots: [4]laSlot{{"rd", 'n', 32}, {"rj", 'x', 0}}, hasImm: true},
+	loong64.OpFormatType_2R_msbw_lsbw: {slots: [4]laSlot{{"rd", 'x', 0}, {"rj", 'x', 0}, {"msb", 'n', 32}, {"lsb", 'n', 32}}},
+	loong64.OpFormatType_2R_msbd_lsbd: {slots: [4]laSlot{{"rd", 'x', 0}, {"rj", 'x', 0}, {"msb", 'n', 64}, {"lsb", 'n', 64}}},
+	loong64.OpFormatType_fcsr_1R:      {slots: [4]laSlot{{"rd", 's', 0}, {"rj", 'x', 0}}},
+	loong64.OpFormatType_1R_fcsr:      {slots: [4]laSlot{{"rd", 'x', 0}, {"rj", 's', 0}}},
+	loong64.OpFormatType_cd_1R:        {slots: [4]laSlot{{"rd", 'c', 0}, {"rj", 'x', 0}}},
+	loong64.OpFormatType_cd_1F:        {slots: [4]laSlot{{"rd", 'c', 0}, {"rj", 'f', 0}}},
+	loong64.OpFormatType_cd_2F:        {slots: [4]laSlot{{"rd", 'c', 0}, {"rj", 'f', 0}, {"rk", 'f', 0}}},
+	loong64.OpFormatType_1R_cj:        {slots: [4]laSlot{{"rd", 'x', 0}, {"rj", 'c', 0}}},
+	loong64.OpFormatType_1F_cj:        {slots: [4]laSlot{{"rd", 'f', 0}, {"rj", 'c', 0}}},
+	loong64.OpFormatType_1R_csr:       {slots: [4]laSlot{{"rd", 'x', 0}}, hasImm: true},
+	loong64.OpFormatType_2R_csr:       {slots: [4]laSlot{{"rd", 'x', 0}, {"rj", 'x', 0}}, hasImm: true},
+	loong64.OpFormatType_2R_level:     {slots: [4]laSlot{{"rd", 'x', 0}, {"rj", 'x', 0}}, hasImm: true},
+	loong64.OpFormatType_level:        {hasImm: true},
+	loong64.OpFormatType_0_1R_seq:     {slots: [4]laSlot{{}, {"rj", 'x', 0}}, hasImm: true},
+	loong64.OpFormatType_op_2R:        {slots: [4]laSlot{{"rd", 'n', 32}, {"rj", 'x', 0}, {"rk", 'x', 0}}},
+	loong64.OpFormatType_3F_ca:        {slots: [4]laSlot{{"rd", 'f', 0}, {"rj", 'f', 0}, {"rk", 'f', 0}}, hasImm: true},
+	loong64.OpFormatType_hint_1R_si12: {slots: [4]laSlot{{"rd", 'n', 32}, {"rj", 'x', 0}}, hasImm: true},
+	loong64.OpFormatType_hint_2R:      {slots: [4]laSlot{{"rd", 'n', 32}, {"rj", 'x', 0}, {"rk", 'x', 0}}},
+	loong64.OpFormatType_hint:         {hasImm: true},
+	loong64.OpFormatType_cj_offset:    {slots: [4]laSlot{{}, {"rj", 'c', 0}}, hasImm: true},
+	loong64.OpFormatType_rj_offset:    {slots: [4]laSlot{{}, {"rj", 'x', 0}}, hasImm: true},
+	loong64.OpFormatType_rj_rd_offset: {slots: [4]laSlot{{"rd", 'x', 0}, {"rj", 'x', 0}}, hasImm: true},
+	loong64.OpFormatType_rd_rj_offset: {slots: [4]laSlot{{"rd", 'x', 0}, {"rj", 'x', 0}}, hasImm: true},
+	loong64.OpFormatType_offset:       {hasImm: true},
 }
 
 func laAlphabet(s laSlot) []abi.RegType {
